@@ -506,29 +506,42 @@ func (w *hpW) readArray() bool {
 		return true
 	}
 	r := w.r
-	it := w.q.Iterate()
 	arr := make([]int, 0, w.n)
+	j := 0
 	var seen uint64
-	for j := 0; ; j++ {
-		var k int
-		var ok bool
-		if hpCatch(func() { k, ok = it.Next() }) {
-			r.Violate("C15", "pq-iter/panic-on-unchanged", "an iterator over an unchanged queue of %d keys panicked at its Next number %d", w.n, j)
-			return false
-		}
-		if !ok {
-			if j != w.n {
-				r.Violate("C15", "pq-iter/unchanged-short", "an iterator over an unchanged queue of %d keys reported exhaustion after %d keys", w.n, j)
-				return false
+	status := func() (status int) { // 0 fine, 1 panicked, 2 short, 3 wrong item
+		defer func() {
+			if p := recover(); p != nil {
+				status = 1
 			}
-			break
+		}()
+		it := w.q.Iterate()
+		for ; ; j++ {
+			k, ok := it.Next()
+			if !ok {
+				if j != w.n {
+					return 2
+				}
+				return 0
+			}
+			if k < 0 || k >= w.nKeys || !w.has[k] || seen&(1<<uint(k)) != 0 {
+				arr = append(arr, k)
+				return 3
+			}
+			seen |= 1 << uint(k)
+			arr = append(arr, k)
 		}
-		if k < 0 || k >= w.nKeys || !w.has[k] || seen&(1<<uint(k)) != 0 {
-			r.Violate("C15", "pq-iter/unchanged-wrong-item", "an iterator over an unchanged queue yielded key %d, which is not held or was yielded before (yielded so far: %v)", k, arr)
-			return false
-		}
-		seen |= 1 << uint(k)
-		arr = append(arr, k)
+	}()
+	switch status {
+	case 1:
+		r.Violate("C15", "pq-iter/panic-on-unchanged", "an iterator over an unchanged queue of %d keys panicked at its Next number %d", w.n, j)
+		return false
+	case 2:
+		r.Violate("C15", "pq-iter/unchanged-short", "an iterator over an unchanged queue of %d keys reported exhaustion after %d keys", w.n, j)
+		return false
+	case 3:
+		r.Violate("C15", "pq-iter/unchanged-wrong-item", "an iterator over an unchanged queue yielded a key that is not held or was yielded before (last of the yields so far: %v)", arr)
+		return false
 	}
 	w.arr = arr
 	return true
